@@ -43,7 +43,7 @@ covered; distinct = (DA advance, per-height event kinds, outcome of each forced 
 pub fn run(args: &Args, report: &Report) {
     let ctx = Ctx::new(args, report);
     let shards = args.by_tier(16, 32);
-    let sessions = args.by_tier(5, 50);
+    let sessions = args.by_tier(40, 480);
     let blocks = args.by_tier(14u32, 20);
     let c = ctx.clone();
     for_each_session(args, report, shards, sessions, move |case, rng| {
@@ -315,15 +315,17 @@ pub fn run(args: &Args, report: &Report) {
             }
         }
     });
-    report.require("c05.nontrivial_blocks", args.by_tier(300, 3_000));
-    report.require("c05.blocks_multi_height_jump", args.by_tier(200, 2_000));
-    report.require("c05.blocks_multi_height_jump_with_forced_txs", args.by_tier(100, 1_000));
-    report.require("c05.blocks_zero_advance", args.by_tier(100, 1_000));
-    report.require("c05.blocks_with_events_beyond_da_height", args.by_tier(150, 1_500));
-    report.require("c05.forced_executed", args.by_tier(100, 1_000));
-    report.require("c05.messages_imported", args.by_tier(300, 3_000));
-    report.require("c05.forced_failed_total", args.by_tier(100, 1_000));
-    report.require("c05.validated", args.by_tier(500, 5_000));
+    if args.replay.is_none() {
+        report.require("c05.nontrivial_blocks", args.by_tier(300, 3_000));
+        report.require("c05.blocks_multi_height_jump", args.by_tier(200, 2_000));
+        report.require("c05.blocks_multi_height_jump_with_forced_txs", args.by_tier(100, 1_000));
+        report.require("c05.blocks_zero_advance", args.by_tier(100, 1_000));
+        report.require("c05.blocks_with_events_beyond_da_height", args.by_tier(150, 1_500));
+        report.require("c05.forced_executed", args.by_tier(100, 1_000));
+        report.require("c05.messages_imported", args.by_tier(300, 3_000));
+        report.require("c05.forced_failed_total", args.by_tier(100, 1_000));
+        report.require("c05.validated", args.by_tier(500, 5_000));
+    }
     report.finish(
         args,
         "exploration",
